@@ -664,6 +664,13 @@ fn parse_asref(owner: &str, target: &str, mutable: bool, imp: &syn::ItemImpl) ->
 }
 
 pub fn parse(text: &str) -> Result<EFile, String> {
+    let r = parse_inner(text);
+    // everything kept in an EFile is text; let proc-macro2 forget the source it parsed
+    crate::drive::release_spans();
+    r
+}
+
+fn parse_inner(text: &str) -> Result<EFile, String> {
     let file = syn::parse_file(text).map_err(|e| {
         let lc = e.span().start();
         format!("{}:{}: {e}", lc.line, lc.column + 1)
